@@ -171,6 +171,8 @@ Ltac closed_set_tac :=
   match goal with |- context [upd _ ?m _ n] => upd_cases n m end; auto;
   repeat match goal with Hp : ph st _ = _ |- _ => try rewrite Hp in Hf; clear Hp end;
   simpl in Hf; try discriminate Hf;
+  repeat match type of Hf with context [if ?x then _ else _] => destruct x end;
+  try discriminate Hf;
   unfold after_push, after_tag;
   repeat match goal with |- context [if ?x then _ else _] => destruct x end;
   reflexivity.
@@ -408,3 +410,266 @@ Proof.
     |exact (cb_once g c CPost n tr _ _ (or_intror (or_introl eq_refl)) H)
     |exact (cb_once g c CSkip n tr _ _ (or_intror (or_intror eq_refl)) H)].
 Qed.
+
+(* ------------------------------------------------------------------ exactly once for transferred nodes *)
+
+Definition postok_ph (p : phase) : bool :=
+  match p with Closing false | TagP0 false | TagP1 false | PostP | Done | Dead => true | _ => false end.
+Definition skipdone_ph (p : phase) : bool :=
+  match p with TagP0 true | TagP1 true | Done | Dead => true | _ => false end.
+
+Lemma postok_closed : closed_set postok_ph.
+Proof. closed_set_tac. Qed.
+Lemma skipdone_closed : closed_set skipdone_ph.
+Proof. closed_set_tac. Qed.
+
+Lemma cnt_ge1 p e tr : In e tr -> p e = true -> 1 <= cnt p tr.
+Proof.
+  intros Hin Hp. unfold cnt. induction tr as [|a tr IH]; simpl in *; [contradiction|].
+  destruct Hin as [->|Hin].
+  - rewrite Hp. simpl. lia.
+  - specialize (IH Hin). destruct (p a); simpl; lia.
+Qed.
+
+Lemma cnt_zero p tr : (forall e, In e tr -> p e = false) -> cnt p tr = 0.
+Proof.
+  intro H. unfold cnt. induction tr as [|a tr IH]; simpl; auto.
+  rewrite (H a (or_introl eq_refl)). apply IH. intros e He. apply H. now right.
+Qed.
+
+Lemma phase_eq_done (p : phase) : p = Done \/ p <> Done.
+Proof. destruct p; auto; right; discriminate. Qed.
+
+Section Exactly.
+Variable g : graph.
+Variable c : cfg.
+Variable d0 : list node.
+
+Definition pushok (n : node) (h : list event) : Prop := exists ref, In (PuE n ref POk) h.
+Definition skipped (n : node) (h : list event) : Prop := In (Cb CSkip n) h \/ In (CbFail CSkip n) h.
+
+Record HInv (h : list event) (st : state) : Prop := {
+  h_pre : forall n, settled_ph (ph st n) = true -> In (Cb CPre n) h;
+  h_ok : forall n, pushok n h -> postok_ph (ph st n) = true;
+  h_skip : forall n, skipped n h -> skipdone_ph (ph st n) = true;
+  h_okpre : forall n, pushok n h -> In (Cb CPre n) h;
+  h_okpost : forall n, pushok n h -> ph st n = Done -> In (Cb CPost n) h;
+  h_excl : forall n, pushok n h -> skipped n h -> False
+}.
+
+Lemma in_snoc {A} (x e : A) h : In x (h ++ [e]) <-> In x h \/ x = e.
+Proof.
+  rewrite in_app_iff. simpl. intuition.
+Qed.
+
+Lemma pushok_snoc n h e : pushok n (h ++ [e]) <-> pushok n h \/ exists ref, e = PuE n ref POk.
+Proof.
+  unfold pushok. split.
+  - intros [ref H]. apply in_snoc in H as [H|H]; eauto.
+  - intros [[ref H]|[ref ->]]; exists ref; apply in_snoc; auto.
+Qed.
+
+Lemma skipped_snoc n h e : skipped n (h ++ [e]) <-> skipped n h \/ e = Cb CSkip n \/ e = CbFail CSkip n.
+Proof.
+  unfold skipped. rewrite !in_snoc. intuition congruence.
+Qed.
+
+(* the phase of n right after a successful push of n *)
+Lemma step_pushok st n ref st' : Inv g c d0 st -> step g c st (PuE n ref POk) = Some st' ->
+  (exists rd, ph st n = Pushing false rd) /\ postok_ph (ph st' n) = true /\ ph st' n <> Done.
+Proof.
+  intros I H. unfold step in H. destruct (returned st); [discriminate|].
+  destruct (negb (eqb ref (root_refpush c n))); [discriminate|].
+  destruct (ph st n) eqn:Hp; try discriminate.
+  destruct (has g (dst st) n) eqn:Hh; [discriminate|].
+  injection H as <-. simpl. rewrite upd_same.
+  destruct sk.
+  - exfalso. assert (has g (dst st) n = true) by (apply (i_present g c d0 st I); rewrite Hp; reflexivity).
+    congruence.
+  - split; [eauto|]. unfold after_push. destruct rd; simpl; [split; [reflexivity|discriminate]|].
+    destruct (root_tagger c n); simpl; split; try reflexivity; discriminate.
+Qed.
+
+Lemma step_skip_cb st n st' : step g c st (Cb CSkip n) = Some st' ->
+  ph st n = SkipP /\ skipdone_ph (ph st' n) = true.
+Proof.
+  unfold step, cb_next. destruct (returned st); [discriminate|].
+  destruct (ph st n) eqn:Hp; try discriminate.
+  intro H. injection H as <-. simpl. rewrite upd_same. split; auto.
+  destruct (root_tagger c n); reflexivity.
+Qed.
+
+Lemma step_skip_fail st n st' : step g c st (CbFail CSkip n) = Some st' ->
+  ph st n = SkipP /\ skipdone_ph (ph st' n) = true.
+Proof.
+  unfold step, cb_next. destruct (returned st); [discriminate|].
+  destruct (ph st n) eqn:Hp; try discriminate.
+  intro H. injection H as <-. simpl. rewrite upd_same. split; auto.
+Qed.
+
+(* how a node becomes Done *)
+Lemma step_to_done st e st' n : step g c st e = Some st' -> ph st' n = Done -> ph st n <> Done ->
+  postok_ph (ph st n) = true -> e = Cb CPost n.
+Proof.
+  intros H Hd Hn Hp.
+  step_inv H; simp_st; try congruence;
+  (upd_cases n n0; [| congruence]);
+  repeat match goal with Hq : ph st _ = _ |- _ => try rewrite Hq in Hp; clear Hq end;
+  simpl in Hp; try discriminate Hp; try reflexivity;
+  split_ifs_in Hd; try discriminate Hd; try discriminate Hp.
+Qed.
+
+Lemma hinv_step h st e st' : Inv g c d0 st -> HInv h st -> step g c st e = Some st' ->
+  HInv (h ++ [e]) st'.
+Proof.
+  intros I HI H.
+  assert (OK : forall n, pushok n (h ++ [e]) -> postok_ph (ph st' n) = true).
+  { intros n Hn. apply pushok_snoc in Hn as [Hn|[ref ->]].
+    - eapply postok_closed; eauto. now apply (h_ok h st HI).
+    - now destruct (step_pushok st n ref st' I H) as [_ [Hq _]]. }
+  constructor.
+  - (* PreCopy seen for settled nodes *)
+    intros n Hs. apply in_snoc.
+    assert (Old : settled_ph (ph st n) = true -> In (Cb CPre n) h \/ Cb CPre n = e)
+      by (intro Hq; left; now apply (h_pre h st HI)).
+    step_inv H; simp_st; try (now apply Old);
+    (upd_cases n n0; [| now apply Old]);
+    unfold after_push, after_tag in Hs;
+    repeat match type of Hs with context [if ?x then _ else _] => destruct x eqn:?Hi end;
+    simpl in Hs; try discriminate Hs;
+    repeat match type of Hs with context [if ?x then _ else _] => destruct x eqn:?Hi end;
+    try discriminate Hs;
+    first [ right; reflexivity | apply Old; old_ph; reflexivity ].
+  - exact OK.
+  - (* skipped nodes *)
+    intros n Hn. apply skipped_snoc in Hn as [Hn|[->| ->]].
+    + eapply skipdone_closed; eauto. now apply (h_skip h st HI).
+    + now destruct (step_skip_cb st n st' H).
+    + now destruct (step_skip_fail st n st' H).
+  - (* pushed => PreCopy seen *)
+    intros n Hn. apply in_snoc. apply pushok_snoc in Hn as [Hn|[ref ->]].
+    + left. now apply (h_okpre h st HI).
+    + left. destruct (step_pushok st n ref st' I H) as [[rd Hq] _].
+      apply (h_pre h st HI). now rewrite Hq.
+  - (* pushed and Done => PostCopy seen *)
+    intros n Hn Hd. apply in_snoc. apply pushok_snoc in Hn as [Hn|[ref ->]].
+    + destruct (phase_eq_done (ph st n)) as [Hq|Hq].
+      * left. now apply (h_okpost h st HI).
+      * right. symmetry. eapply step_to_done; eauto. now apply (h_ok h st HI).
+    + destruct (step_pushok st n ref st' I H) as [_ [_ Hq]]. contradiction.
+  - (* pushed and skipped exclude each other *)
+    intros n Hp Hs. apply pushok_snoc in Hp as [Hp|[ref ->]]; apply skipped_snoc in Hs as [Hs|Hs].
+    + eapply (h_excl h st HI); eauto.
+    + pose proof (h_ok h st HI n Hp) as Hq.
+      destruct Hs as [->| ->];
+        [destruct (step_skip_cb st n st' H) as [Hz _] | destruct (step_skip_fail st n st' H) as [Hz _]];
+        rewrite Hz in Hq; discriminate.
+    + destruct (step_pushok st n ref st' I H) as [[rd Hq] _].
+      pose proof (h_skip h st HI n Hs) as Hz. rewrite Hq in Hz. discriminate.
+    + destruct Hs; discriminate.
+Qed.
+End Exactly.
+
+Section ExactlyRun.
+Variable g : graph.
+Variable c : cfg.
+Variable d0 : list node.
+
+Lemma hinv_run tr : forall h st st', Inv g c d0 st -> HInv h st ->
+  run g c st tr = Some st' -> HInv (h ++ tr) st'.
+Proof.
+  induction tr as [|e tr IH]; simpl; intros h st st' I HI H.
+  - injection H as <-. now rewrite app_nil_r.
+  - destruct (step g c st e) as [s1|] eqn:E; [|discriminate].
+    replace (h ++ e :: tr) with ((h ++ [e]) ++ tr) by (rewrite <- app_assoc; reflexivity).
+    apply (IH (h ++ [e]) s1 st');
+      [eapply step_preserves_inv; eauto | eapply hinv_step; eauto | exact H].
+Qed.
+
+Lemma hinv_init : HInv [] (init c d0).
+Proof.
+  constructor; simpl; intros; try discriminate;
+  try (match goal with Hx : pushok _ [] |- _ => destruct Hx as [? []] end);
+  try (match goal with Hx : skipped _ [] |- _ => destruct Hx as [[]|[]] end).
+Qed.
+
+(* a transferred node of a successful copy: exactly one PreCopy, exactly one PostCopy,
+   no OnCopySkipped; PreCopy precedes the push and PostCopy follows it (same-node events
+   are ordered by the phase sequence Waiting -> Rdy -> Pushing -> ... -> PostP -> Done) *)
+Lemma transferred_exactly_once tr st n ref :
+  accepts g c d0 tr = Some st -> returned st = Some true ->
+  In (PuE n ref POk) tr ->
+  cnt (is_cb CPre n) tr = 1 /\ cnt (is_cb CPost n) tr = 1 /\ cnt (is_cb CSkip n) tr = 0.
+Proof.
+  intros Ha Hr Hin. pose proof Ha as Ha'. unfold accepts in Ha.
+  pose proof (run_inv g c d0 tr _ _ (init_inv g c d0) Ha) as I.
+  pose proof (hinv_run tr [] _ _ (init_inv g c d0) hinv_init Ha) as HI. simpl in HI.
+  assert (Hp : pushok n tr) by (exists ref; exact Hin).
+  destruct (callbacks_once_lemma g c d0 tr st n Ha') as [L1 [L2 L3]].
+  pose proof (h_ok tr st HI n Hp) as Hok.
+  assert (Hn : n < g_n g).
+  { apply (i_bound g c d0 st I). intro Hz. rewrite Hz in Hok. discriminate. }
+  destruct (run_ret_true g c tr _ _ Ha eq_refl Hr) as [_ Hall].
+  specialize (Hall n Hn).
+  assert (Hd : ph st n = Done).
+  { destruct (ph st n); simpl in *; try discriminate; reflexivity. }
+  pose proof (h_okpre tr st HI n Hp) as Hpre.
+  pose proof (h_okpost tr st HI n Hp Hd) as Hpost.
+  assert (G1 : 1 <= cnt (is_cb CPre n) tr)
+    by (eapply cnt_ge1; [exact Hpre | simpl; now rewrite Nat.eqb_refl]).
+  assert (G2 : 1 <= cnt (is_cb CPost n) tr)
+    by (eapply cnt_ge1; [exact Hpost | simpl; now rewrite Nat.eqb_refl]).
+  repeat split; try lia.
+  apply cnt_zero. intros e He.
+  destruct (is_cb CSkip n e) eqn:Ec; auto. exfalso.
+  apply (h_excl tr st HI n Hp).
+  destruct e; simpl in Ec; try discriminate;
+    apply andb_true_iff in Ec as [E1 E2]; apply Nat.eqb_eq in E1; subst;
+    destruct k; try discriminate; [left|right]; exact He.
+Qed.
+End ExactlyRun.
+
+Section PushOrder.
+Variable g : graph.
+Variable c : cfg.
+Variable d0 : list node.
+
+Definition PInv (h : list event) (st : state) : Prop :=
+  forall n, In (Cb CPost n) h -> ph st n = Done.
+
+Lemma step_cbpost_done st n st' : step g c st (Cb CPost n) = Some st' -> ph st' n = Done.
+Proof.
+  unfold step, cb_next. destruct (returned st); [discriminate|].
+  destruct (ph st n); try discriminate.
+  intro H. injection H as <-. simpl. apply upd_same.
+Qed.
+
+Lemma pinv_run tr : forall h st st', PInv h st -> run g c st tr = Some st' -> PInv (h ++ tr) st'.
+Proof.
+  induction tr as [|e tr IH]; simpl; intros h st st' P H.
+  - injection H as <-. now rewrite app_nil_r.
+  - destruct (step g c st e) as [s1|] eqn:E; [|discriminate].
+    replace (h ++ e :: tr) with ((h ++ [e]) ++ tr) by (rewrite <- app_assoc; reflexivity).
+    apply (IH (h ++ [e]) s1 st'); [|exact H].
+    intros n Hn. apply in_app_iff in Hn as [Hn|[Hn|[]]].
+    + eapply done_absorbing; eauto.
+    + subst e. eapply step_cbpost_done; eauto.
+Qed.
+
+(* PreCopy of a node precedes its (successful) push, PostCopy follows it *)
+Lemma push_between_callbacks tr1 n ref tr2 st :
+  accepts g c d0 (tr1 ++ PuE n ref POk :: tr2) = Some st ->
+  In (Cb CPre n) tr1 /\ ~ In (Cb CPost n) tr1.
+Proof.
+  intros Ha. unfold accepts in Ha. apply run_app in Ha as [st1 [H1 H2]].
+  pose proof (run_inv g c d0 tr1 _ _ (init_inv g c d0) H1) as I1.
+  pose proof (hinv_run g c d0 tr1 [] _ _ (init_inv g c d0) (hinv_init c d0) H1) as HI. simpl in HI.
+  assert (P1 : PInv tr1 st1).
+  { apply (pinv_run tr1 [] (init c d0) st1); [intros m []|exact H1]. }
+  simpl in H2. destruct (step g c st1 (PuE n ref POk)) as [s2|] eqn:E; [|discriminate].
+  destruct (step_pushok g c d0 st1 n ref s2 I1 E) as [[rd Hq] _].
+  split.
+  - apply (h_pre tr1 st1 HI). now rewrite Hq.
+  - intro Hc. apply P1 in Hc. congruence.
+Qed.
+End PushOrder.
